@@ -188,11 +188,29 @@ def live_hyps(ob, base=None):
     return out
 
 
+def ladder_hyps(ob, k, small=250):
+    """The k hypotheses most similar to the goal (store-insensitive token similarity), the cut lemmas and the tiny ones."""
+    g = _tokens(ob.goal.s)
+    scored = []
+    seen = set()
+    for h in ob.hyps:
+        if h.s in seen:
+            continue
+        seen.add(h.s)
+        t = _tokens(h.s)
+        union = sum((t | g).values())
+        scored.append((sum((t & g).values()) / union if union else 0.0, h))
+    top = {id(h) for _, h in sorted(scored, key=lambda x: -x[0])[:k]}
+    return [h for _, h in scored if id(h) in top or len(h.s) < small or getattr(h, "conj", None) == "cut"]
+
+
 def query_text(ctx, ob, slim=False, drop=()):
     parts = [preamble(ctx, drop)]
     seen = set()
     hyps = ob.hyps
-    if slim == "live":
+    if isinstance(slim, tuple) and slim[0] == "ladder":
+        hyps = ladder_hyps(ob, slim[1])
+    elif slim == "live":
         hyps = live_hyps(ob)
     elif slim == "live-slim":
         hyps = live_hyps(ob, slim_hyps(ob, small=2500, sim=0.5))
@@ -398,7 +416,7 @@ def prove_item(kind, name, tier, seed, known=()):
         raise Demoted(str(e))
     res = ProofResult()
     res.trusted = set(ctx.trusted)
-    timeout = int(os.environ.get("PYVC_TIMEOUT", "45" if tier == "quick" else "150"))
+    timeout = int(os.environ.get("PYVC_TIMEOUT", "60" if tier == "quick" else "150"))
     order = ("z3-new", "z3", "cvc5")
     from .symex import Obligation
     canaries = [Obligation(f"{name}:canary:precondition satisfiable", "canary", pre.pc, FALSE, name)]
@@ -473,6 +491,31 @@ def prove_item(kind, name, tier, seed, known=()):
             res.failed.append(ob)
     # vacuity: the precondition must be satisfiable and at least one normal exit must be reachable
     # (individual dead paths are legitimate, e.g. `if norm_identifier is None` in parse_curie)
+    # solver instability is not a verdict: on UNCHANGED source, obligations left open by the parallel pass are retried
+    # one at a time with twice the budget and every configuration started at once
+    if res.failed and not res.source_changed and kind in ("contract", "lemma") and len(res.failed) <= 6 \
+            and not (kind == "contract" and spec.CONTRACTS.get(name) is not None and spec.CONTRACTS[name].opts.get("partial")):
+        still = []
+        for ob in res.failed:
+            text = query_text(ctx, ob)
+            alts = [("slim", query_text(ctx, ob, slim=True)), ("tight", query_text(ctx, ob, slim="tight")), ("slim2", query_text(ctx, ob, slim=2))]
+            alts += [(f"top{k_}", query_text(ctx, ob, slim=("ladder", k_))) for k_ in (2, 5, 10)]
+            if ctx.tags:
+                alts += [("no-cover", query_text(ctx, ob, drop=("cover",))), ("no-elem", query_text(ctx, ob, drop=("elem",)))]
+            r = smt.solve(text, 2 * timeout, order=order, alts=alts, stagger=0.0)
+            for t in r["tried"]:
+                a = res.by_backend.setdefault(t["solver"], [0, 0.0])
+                a[1] += t["s"]
+            if r["result"] == "unsat":
+                res.n_discharged += 1
+                res.by_backend[r["solver"]][0] += 1
+                ob.status = "unsat"
+                res.info.setdefault("retried_sequentially", []).append(ob.label)
+            else:
+                ob.status = r["result"]
+                ob.solver_output = r["tried"]
+                still.append(ob)
+        res.failed = still
     vac = 0
     path_canaries = [(ob, r) for ob, r in allres if ob.kind == "canary" and "return path" in ob.label]
     for ob, r in allres:
